@@ -128,7 +128,7 @@ pub fn run(tier: &str) -> i32 {
     let rep = Report::new("C13", tier, "model_checking");
     let thorough = rep.thorough();
     let bound = if thorough { 4 } else { 3 };
-    rep.rule(&format!("stateless exploration of I/O schedules on the real code: every call on the controlled stream (read/write/seek/flush and their poll_* twins, poll_close) is a choice point; default = complete transfer/Ready; deviations = short transfer of 1, len/2 or len-1 bytes, or Pending once/twice (async). (a) iterative bounding: all executions with <= b deviations, b the largest value <= {bound} whose execution count fits the budget (>= 1 even for the 7.7k-call leaf-spill writers; see scenarios_explored_to_bound_*); (b) tiny directories: every transfer size at every call with unbounded deviations (all compositions); (c) uniform schedules 'every call moves <= c bytes' for c=1..{} with and without 'every poll Pending first'. Oracle: result and (for writers) stream image and final position identical to the 0-deviation execution, which is the in-memory result. non-trivial = executions with >= 1 deviation", if thorough { 32 } else { 9 }));
+    rep.rule(&format!("stateless exploration of I/O schedules on the real code: every call on the controlled stream (read/write/seek/flush and their poll_* twins, poll_close) is a choice point; default = complete transfer/Ready; deviations = short transfer of 1, len/2 or len-1 bytes, or Pending once/twice (async). (a) iterative bounding: all executions with <= b deviations, b the largest value <= {bound} whose execution count fits the budget (>= 1 even for the 7.7k-call leaf-spill writers; see scenarios_explored_to_bound_*); (b) tiny directories: every transfer size at every call with unbounded deviations (all compositions); (c) uniform schedules 'every call moves <= c bytes' for c=1..{} with and without 'every poll Pending first'. (d) complete and cut-short archives opened through from_bytes and through sync/async streams (whole, 3-byte, 7-byte + Pending transfers): same outcome. Oracle: result and (for writers) stream image and final position identical to the 0-deviation execution, which is the in-memory result. non-trivial = executions with >= 1 deviation", if thorough { 32 } else { 9 }));
     rep.assume("controlled stream: seekable in-memory device, reads/writes may be short (>=1 byte) or pending; it stays writable after poll_close (the library closes the shared output after each compressed section); Interrupted/WouldBlock errors are not short transfers and are not explored");
     // the 17 MiB-tile scenarios exist for the fault enumeration; byte-wise schedules over them would need 10^7 calls each
     let scs: Vec<Scenario> = scenarios(true).into_iter().filter(|s| !s.name.contains("17MiB")).collect();
@@ -281,6 +281,18 @@ pub fn run(tier: &str) -> i32 {
         }
         rep.force_sample(json!({"scenario":sc.name,"mode":"all compositions","image_bytes":image_len,"calls":st.calls_default,"alternatives":st.alternatives_default,"executions":st.executions,"capped":st.capped}));
     }
+    // ---- (d) the in-memory entry points (`from_bytes`) against the stream entry points on the same bytes - complete
+    // archives and archives cut short (a download that stopped inside the tile data, inside the directories, one byte
+    // before the end): what opens from memory opens from any stream with the same content, what is refused from
+    // memory is refused from a stream (error texts are not compared)
+    {
+        let (n, bad) = memory_vs_stream();
+        rep.eval(n);
+        rep.count("memory_vs_stream_opens", n);
+        for (k, d, c) in bad {
+            rep.violation(k, d, c);
+        }
+    }
     rep.set("states", json!(total_exec));
     rep.set("transitions", json!((total_points + tiny_calls.load(std::sync::atomic::Ordering::Relaxed)).max(1)));
     rep.set("transitions_meaning", json!("stream calls executed over all explored schedules"));
@@ -294,7 +306,76 @@ pub fn run(tier: &str) -> i32 {
     rep.finish()
 }
 
+/// (d) complete and cut-short archives through the in-memory entry point and through streams: (opens run, violations)
+pub fn memory_vs_stream() -> (u64, Vec<(String, String, Value)>) {
+    use crate::model::{view_async, view_sync, View};
+    use pmtiles2::PMTiles;
+    let mut out = Vec::new();
+    let norm = |r: Result<View, String>| -> Result<View, String> {
+        match r {
+            Ok(mut v) => {
+                for t in v.tiles.values_mut() {
+                    if t.is_err() {
+                        *t = Err("error".into());
+                    }
+                }
+                Ok(v)
+            }
+            Err(e) if e.starts_with("PANIC") => Err(e),
+            Err(_) => Err("error".into()),
+        }
+    };
+    let mut subjects: Vec<(String, Vec<u8>, Vec<u64>)> = Vec::new();
+    for c in crate::common::COMPS {
+        let l = small_logical(c);
+        let b = crate::model::write_lib(&l, crate::model::Api::Sync).expect("HARNESS: small archive");
+        subjects.push((format!("lib-small/{}", cname(c)), b, vec![0, 1, 5, 6]));
+        let f = super::foreign::build(&foreign_leaf_spec(crate::common::comp_code(c)));
+        let ids: Vec<u64> = f.expected.keys().copied().chain([999]).collect();
+        subjects.push((format!("foreign-leaves/{}", cname(c)), f.bytes, ids));
+    }
+    let mut n = 0u64;
+    for (name, bytes, probes) in subjects.iter() {
+        let len = bytes.len();
+        for cut in [0usize, 1, 2, len / 4, len / 2, len - 128, len - 127] {
+            if cut >= len {
+                continue;
+            }
+            let b = &bytes[..len - cut];
+            let open_s = |ch: Box<dyn Chooser>| catch(|| PMTiles::from_reader(Handle::new(b.to_vec(), ch).sync()).map(|mut pm| view_sync(&mut pm, probes)).map_err(|e| e.to_string())).unwrap_or_else(|p| Err(format!("PANIC {p}")));
+            let mem = norm(catch(|| PMTiles::from_bytes(b).map(|mut pm| view_sync(&mut pm, probes)).map_err(|e| e.to_string())).unwrap_or_else(|p| Err(format!("PANIC {p}"))));
+            let variants: Vec<(&str, Result<View, String>)> = vec![
+                ("sync stream with whole reads", open_s(Box::new(DefaultChooser))),
+                ("sync stream with 3-byte reads", open_s(Box::new(Uniform { max: 3, pending_each: 0 }))),
+                (
+                    "async stream with 7-byte reads and Pending",
+                    catch(|| block_on(PMTiles::from_async_reader(Handle::new(b.to_vec(), Box::new(Uniform { max: 7, pending_each: 1 })).asyn())).map(|mut pm| view_async(&mut pm, probes)).map_err(|e| e.to_string())).unwrap_or_else(|p| Err(format!("PANIC {p}"))),
+                ),
+            ];
+            for (vn, r) in variants {
+                n += 1;
+                let r = norm(r);
+                if r != mem {
+                    let show = |x: &Result<View, String>| match x {
+                        Ok(v) => format!("Ok({} tiles)", v.num_tiles),
+                        Err(e) => format!("Err({e})"),
+                    };
+                    out.push((
+                        format!("memory-vs-stream/{}", name.split('/').next().unwrap_or("x")),
+                        format!("[{name}, last {cut} bytes missing] from_bytes gives {} but the {vn} gives {}", show(&mem), show(&r)),
+                        json!({"kind":"memory-vs-stream","subject":name,"cut":cut,"variant":vn}),
+                    ));
+                }
+            }
+        }
+    }
+    (n, out)
+}
+
 pub fn replay(case: &Value) -> Vec<String> {
+    if case["kind"].as_str() == Some("memory-vs-stream") {
+        return memory_vs_stream().1.into_iter().filter(|v| v.2["subject"] == case["subject"] && v.2["cut"] == case["cut"]).map(|v| format!("{}: {}", v.0, v.1)).collect();
+    }
     let name = case["scenario"].as_str().unwrap_or("");
     let mut all = scenarios(true);
     all.extend(tiny_scenarios(21).into_iter().map(|x| x.0));
